@@ -727,6 +727,48 @@ func (r *c07Run) check(i int, seed int) {
 		r.compare(i, q, "User", orderField, tag)
 		r.parts = nil
 	}
+	// point lookups of values that documents actually hold: every indexed field alone, and the
+	// tuple of the first two fields of a composite index together
+	if len(r.res.Viols) == 0 {
+		ids := r.liveIDs()
+		for k := 0; k < 3 && k < len(ids) && len(r.res.Viols) == 0; k++ {
+			doc := r.model[ids[mod(r.next(), len(ids))]]
+			for _, ixd := range c07IndexPool {
+				if !r.active[ixd.name] || len(r.res.Viols) > 0 {
+					continue
+				}
+				var conds, tags []string
+				ok := true
+				for _, f := range ixd.fields {
+					fd := c07FieldByName(f.Name)
+					v := doc[f.Name]
+					if fd == nil || fd.kind == "json" || fd.kind == "counter" || fd.kind == "strarr" || fd.kind == "intarr" {
+						ok = false
+						break
+					}
+					usable := false
+					for _, g := range fd.gql {
+						if gqlToJSON(g) == v {
+							usable = true
+							v = g
+						}
+					}
+					if !usable {
+						ok = false
+						break
+					}
+					conds = append(conds, fmt.Sprintf("%s: {_eq: %s}", f.Name, v))
+					tags = append(tags, fd.kind+":_eq")
+				}
+				if !ok {
+					continue
+				}
+				r.parts = nil
+				q := fmt.Sprintf("query { User(filter: {%s}) { _docID name age score active born } }", strings.Join(conds, ", "))
+				r.compare(i, q, "User", "", "point-lookup/"+strings.Join(tags, "+"))
+			}
+		}
+	}
 	// relation reads through the (possibly indexed) foreign key
 	if len(r.res.Viols) == 0 {
 		r.compare(i, `query { Book(filter: {author: {age: {_ge: 1}}}) { _docID title rating author_id } }`, "Book", "", "Book.author.age")
